@@ -387,6 +387,81 @@ func runC11(c *Ctx) {
 	c11OptionalAuth(c)
 	c11Servers(c)
 	c11WrapperShapes(c)
+	c11AuthPredicate(c)
+}
+
+// c11AuthPredicate: D7 — "once an administrator account exists": the state
+// authRequired consults must be kept in step with the user list by every
+// function that changes the user list (sibling agreement).
+func c11AuthPredicate(c *Ctx) {
+	p, r := c.P, c.R
+	ar := p.Fn("(*home.Auth).authRequired")
+	if ar == nil || ar.Blocks == nil {
+		r.Undecided("C11-D7", "authRequired", "-", "anchor (*home.Auth).authRequired not found")
+		return
+	}
+	authFieldsOf := func(fn *ssa.Function, writeOnly bool) map[string]bool {
+		out := map[string]bool{}
+		for _, f := range core.WithAnon(fn) {
+			for _, b := range f.Blocks {
+				for _, in := range b.Instrs {
+					fa, ok := in.(*ssa.FieldAddr)
+					if !ok {
+						continue
+					}
+					fr, ok := core.FieldOfAddr(fa)
+					if !ok || fr.Type != "home.Auth" {
+						continue
+					}
+					if !writeOnly {
+						out[fr.Field] = true
+						continue
+					}
+					for _, u := range core.Users(fa) {
+						switch y := u.(type) {
+						case *ssa.Store:
+							if y.Addr == fa {
+								out[fr.Field] = true
+							}
+						case ssa.CallInstruction:
+							out[fr.Field] = true // address handed to a call (e.g. atomic Store)
+						}
+					}
+				}
+			}
+		}
+		return out
+	}
+	consulted := authFieldsOf(ar, false)
+	delete(consulted, "lock")
+	var cons []string
+	for f := range consulted {
+		cons = append(cons, f)
+	}
+	sort.Strings(cons)
+	r.Check(len(cons) > 0, "C11-D7", "authRequired:consults-state", p.FnPos(ar),
+		fmt.Sprintf("authRequired decides from Auth fields %v", cons), "authRequired no longer consults any Auth state")
+	writers := 0
+	for _, fn := range p.ModFnsIn("home") {
+		if fn.Blocks == nil || fn.Parent() != nil {
+			continue
+		}
+		w := authFieldsOf(fn, true)
+		if !w["users"] {
+			continue
+		}
+		writers++
+		var missing []string
+		for _, f := range cons {
+			if f != "users" && !w[f] {
+				missing = append(missing, f)
+			}
+		}
+		r.Check(len(missing) == 0, "C11-D7", "user-list-writer:"+core.FuncKey(fn), p.FnPos(fn),
+			"changes the user list and keeps everything authRequired consults in step",
+			fmt.Sprintf("%s changes Auth.users but not %v, which authRequired consults: after this call the auth requirement is stale (e.g. first user added at run time leaves every endpoint open)", core.FuncKey(fn), missing))
+	}
+	r.Floor("C11-D7", "user-list-writers", writers, 2)
 }
 
 func shortChain(ch []string) []string {
